@@ -3,8 +3,10 @@ for ALL sample values and weights (floats as reals, so "to rounding" in the stat
 
 The functions sum over their inputs (`sum(i*j for i,j in zip(samples, weights))`); with a fixed n every sum is a finite
 polynomial expression and each obligation is a polynomial identity / implication over the reals decided by z3's
-nonlinear solver.  Arbitrary n would need an inductive Sum theory (not built: DESIGN 4/C18); sizes above 4 and all the
-median / trimmed / norm variants are decided by the bounded layer rtc/c18."""
+nonlinear solver.  Arbitrary n would need an inductive Sum theory (not built: DESIGN 4/C18).  The order statistics (median,
+mad, their impose_* twins, trimmed / winsorized mean and variance) are under contract at n <= 4 too: sorting a few
+symbolic numbers is a compare-exchange network of min / max terms, boolean-mask selections decide their mask.  Sizes above
+4 and the remaining variants are decided by the bounded layer rtc/c18."""
 from pyvc.contract import contract
 
 import os
